@@ -39,4 +39,21 @@ Example C10_nonvacuous :
   /\ c10_ok 2 (map to_op ops) tr = true.
 Proof. vm_compute. repeat split; reflexivity. Qed.
 
+
+(* ------------------------------------------------------------------------------------------ *)
+(* Server half (model: Server.v; proofs: Server*.v; statements restated from ServerProps.v).
+   From here on unqualified names are the SERVER model's. *)
+From TarpcV Require Import TimerWheel Server ServerMon ServerFuel ServerProps ServerWitness.
+
+(* Server channel, every transport: BaseChannel::poll_next ends (yields None) only when the
+   transport has reported end of stream and nothing is tracked any more (no timer, no queued
+   server-side cancel).  (The full monitor - the Requests stream ends only after inbound EOF, no
+   request in flight and a completed flush after the last write - is ServerSpec.stmt_s10; it runs
+   on the real traces on every run.) *)
+Theorem C10_server_base_end : forall (T : Type) (tp : transport T response cmsg) f (s s' : @sstate T),
+  base_poll_next tp f s = (PEnd, s') ->
+  s_fused s' = true /\ s_timers s' = [] /\ s_cancels s' = [].
+Proof. exact ServerProps.C10_server_base_end. Qed.
+
 Print Assumptions C10_client_monitor.
+Print Assumptions C10_server_base_end.
